@@ -163,10 +163,10 @@ theorem C01_canonical_nl_ascii (frb : Bool) (now : Date) (e : Enc) (hlp : e.lp =
 
 /-! ### EBCDIC -/
 
-/-- canonical, rendered as text the code page carries, and not a record 52 (whose EBCDIC form mixes
-transliterated text with raw image bytes: see `C01_canonical_lp_ebcdic_partial`) -/
+/-- canonical and rendered as text the code page carries (record 52: everything but the image bytes, which the
+EBCDIC writer emits raw) -/
 def CanonSafe (m : Model) (k : Kind) (v : Vals) : Prop :=
-  RecCanon m k v ∧ (lineOf m k (some v)).all (safeB m.cm) = true ∧ k ≠ .ivData
+  RecCanon m k v ∧ (if k = .ivData then IvSafe m v else (lineOf m k (some v)).all (safeB m.cm) = true)
 
 structure CanonFileE (m : Model) (f : File Vals) : Prop where
   hdr : RecCanon m .fileHeader f.header
@@ -176,18 +176,24 @@ structure CanonFileE (m : Model) (f : File Vals) : Prop where
   cashLetters : ∀ cl ∈ f.cashLetters, CashLetterAll m (CanonSafe m) cl
 
 theorem recOK_ebcdic_all (m : Model) (e : Enc) (he : e.ebcdic = true) (hd : DigitsOK m.cm = true)
-    (hK : ∀ k, KindOK m k = true) (k : Kind) (v : Vals) (h : CanonSafe m k v) : RecOK m e (bodyLn m e) k v := by
-  obtain ⟨hc, hs, hk⟩ := h
-  have := hK k
-  simp only [KindOK, Bool.or_eq_true] at this
-  rcases this with (hf | hf) | hf
-  · exact recOK_ebcdic m e he hd k hf v hc hs
-  · exact recOK_ebcdic_key m e he hd k hf v hc hs
-  · simp only [IvKind, Bool.and_eq_true, beq_iff_eq] at hf
-    exact absurd hf.1.1.1.1.1.1.1.1.1.1.1.1.1.2 hk
+    (hK : ∀ k, KindOK m k = true) (hIv : IvKindE m = true) (k : Kind) (v : Vals) (h : CanonSafe m k v) :
+    RecOK m e (bodyLn m e) k v := by
+  obtain ⟨hc, hs⟩ := h
+  by_cases hk : k = .ivData
+  · subst hk
+    simp only [if_true] at hs
+    exact recOK_ebcdic_iv m e he hd hIv v hc hs
+  · simp only [hk, if_false] at hs
+    have := hK k
+    simp only [KindOK, Bool.or_eq_true] at this
+    rcases this with (hf | hf) | hf
+    · exact recOK_ebcdic m e he hd k hf v hc hs
+    · exact recOK_ebcdic_key m e he hd k hf v hc hs
+    · simp only [IvKind, Bool.and_eq_true, beq_iff_eq] at hf
+      exact absurd hf.1.1.1.1.1.1.1.1.1.1.1.1.1.2 hk
 
 theorem fileOK_of_canonE (m : Model) (e : Enc) (he : e.ebcdic = true) (hd : DigitsOK m.cm = true)
-    (hK : ∀ k, KindOK m k = true) (hEnds : EndsOK m = true)
+    (hK : ∀ k, KindOK m k = true) (hIv : IvKindE m = true) (hEnds : EndsOK m = true)
     (f : File Vals) (h : CanonFileE m f) : FileOK m e (bodyLn m e) f := by
   simp only [EndsOK, List.all_cons, List.all_nil, Bool.and_true, Bool.and_eq_true, beq_iff_eq, List.any_eq_true] at hEnds
   obtain ⟨⟨⟨⟨hl1, ht1⟩, hE1⟩, ⟨⟨hl2, ht2⟩, hE2⟩⟩, ⟨st, hst, hur⟩⟩ := hEnds
@@ -218,7 +224,7 @@ theorem fileOK_of_canonE (m : Model) (e : Enc) (he : e.ebcdic = true) (hd : Digi
     exact hp2
   · rw [h.ctl.typeSet]; exact tag_nonempty _
   · intro cl hcl
-    exact cashLetterOK_of_all m e _ (CanonSafe m) (recOK_ebcdic_all m e he hd hK) cl (h.cashLetters cl hcl)
+    exact cashLetterOK_of_all m e _ (CanonSafe m) (recOK_ebcdic_all m e he hd hK hIv) cl (h.cashLetters cl hcl)
 
 theorem treeWF_of_canonE (m : Model) (f : File Vals) (h : CanonFileE m f) : TreeWF f := by
   intro cl hcl
@@ -231,30 +237,55 @@ theorem treeWF_of_canonE (m : Model) (f : File Vals) (h : CanonFileE m f) : Tree
   obtain ⟨by', hby, _⟩ := (hc.bundles b hb).ctl
   exact ⟨bx, by', hbx, hby⟩
 
+def ivKindEL (ls : List RecLayout) : Bool :=
+  let L := layoutOf ls .ivData
+  kindOKL ls .ivData && !(decide (80 ≤ (endOff L.write ⟨0, []⟩).c) && false) &&
+  (match L.write.reverse with
+   | last :: initR => last.imageOnly && isVarConv last.conv && last.lenField == "LengthImageData" && initR.all (fun f => !f.imageOnly)
+   | [] => false) &&
+  L.parse.all (fun st => !usesRunes st) && flagsB L.write L.parse
+
+set_option maxRecDepth 20000 in
+theorem gen_ivKindE' : ivKindEL Gen.all = true := by decide
+
+theorem gen_ivKindE (frb : Bool) (now : Date) : IvKindE (genModel frb now) = true := by
+  have h := gen_ivKindE'
+  simp only [ivKindEL, Bool.and_eq_true] at h
+  obtain ⟨⟨⟨⟨hk, _⟩, h2⟩, h3⟩, h4⟩ := h
+  have hko : KindOK (genModel frb now) .ivData = true := gen_kindOK frb now .ivData
+  have hiv : IvKind (genModel frb now) .ivData = true := by
+    simp only [KindOK, Bool.or_eq_true] at hko
+    rcases hko with (hf | hf) | hf
+    · simp [FixedKind] at hf
+    · simp [KeyKind] at hf
+    · exact hf
+  simp only [IvKindE, Bool.and_eq_true]
+  exact ⟨⟨⟨hiv, h2⟩, h3⟩, h4⟩
+
 set_option maxRecDepth 20000 in
 theorem gen_digitsOK : DigitsOK { dec := Gen.cp037Dec, repl := Gen.cp037Repl } = true := by decide
 
-/-- **C01, end to end on the regenerated model, EBCDIC, length-prefixed** (partial: files without record 52, whose
-EBCDIC form the reader decodes section by section; covered by the correspondence stream): a canonical file of
-text the regenerated CP037 table carries, accepted by the model writer, reads back as itself -/
-theorem C01_canonical_lp_ebcdic_partial (frb : Bool) (now : Date) (e : Enc) (hlp : e.lp = true) (he : e.ebcdic = true)
+/-- **C01, end to end on the regenerated model, EBCDIC, length-prefixed**: a canonical file of text the regenerated
+CP037 table carries (record 52: all but the image bytes, which travel raw and are arbitrary), accepted by the model
+writer, reads back as itself -/
+theorem C01_canonical_lp_ebcdic (frb : Bool) (now : Date) (e : Enc) (hlp : e.lp = true) (he : e.ebcdic = true)
     (f : File Vals) (bytes : Bytes) (hc : CanonFileE (genModel frb now) f)
     (hbody : ∀ kr ∈ f.flatten, ∀ v, kr.2 = some v →
       (bodyLn (genModel frb now) e kr.1 v).length = (lineOf (genModel frb now) kr.1 (some v)).length)
     (hw : writeFile (genModel frb now) e f = some bytes) :
     readFile (genModel frb now) e bytes = (f, none) :=
   C01_write_read_lp _ e f bytes hlp hw (treeWF_of_canonE _ f hc) hbody
-    (fileOK_of_canonE _ e he gen_digitsOK (gen_kindOK frb now) (gen_endsOK frb now) f hc)
+    (fileOK_of_canonE _ e he gen_digitsOK (gen_kindOK frb now) (gen_ivKindE frb now) (gen_endsOK frb now) f hc)
 
 
 /-- the same under newline framing, for files none of whose EBCDIC records holds the byte 0x0A or ends in 0x0D -/
-theorem C01_canonical_nl_ebcdic_partial (frb : Bool) (now : Date) (e : Enc) (hlp : e.lp = false) (he : e.ebcdic = true)
+theorem C01_canonical_nl_ebcdic (frb : Bool) (now : Date) (e : Enc) (hlp : e.lp = false) (he : e.ebcdic = true)
     (f : File Vals) (bytes : Bytes) (hc : CanonFileE (genModel frb now) f)
     (hw : writeFile (genModel frb now) e f = some bytes)
     (hno : ∀ l ∈ fileLines (bodyLn (genModel frb now) e) f, (0x0A : UInt8) ∉ l)
     (hcr : ∀ l ∈ fileLines (bodyLn (genModel frb now) e) f, dropCR l = l) :
     readFile (genModel frb now) e bytes = (f, none) :=
   C01_write_read_nl _ e f bytes hlp hw (treeWF_of_canonE _ f hc)
-    (fileOK_of_canonE _ e he gen_digitsOK (gen_kindOK frb now) (gen_endsOK frb now) f hc) hno hcr
+    (fileOK_of_canonE _ e he gen_digitsOK (gen_kindOK frb now) (gen_ivKindE frb now) (gen_endsOK frb now) f hc) hno hcr
 
 end Icl.C01
